@@ -128,9 +128,12 @@ NAME_POOL = [b"t.N1", b"t.N1", b"t.N1", b"org.example.Svc", b"a.b", b"t.N-1", b"
              b"t/N1", b"../x.y", b"t.N1/..", b"t N1", b"t.N1 ", b"", b"t.N1\n", b"t.\xc3\xa9", b"-t.N", b"t.N1.service", b"*.*", b"a" * 126 + b".b" * 64, b"a" * 127 + b".b" * 64 + b"c"]
 
 
+VALID_NAMES = [b"t.N1", b"t.N1", b"org.example.Svc", b"a.b", b"t.N-1", b"t._1", b"A.B.C9", b":1.5", b":1.5.x", b"-t.N", b"t.N1.service", b"a" * 126 + b".b" * 64]
+
+
 def gen_helper_case(rnd, stub):
     """returns (name, perm_ok, dirs) with dirs = [ {filename: content} ]; the Exec lines mostly run the stub"""
-    name = rnd.choice(NAME_POOL)
+    name = rnd.choice(VALID_NAMES) if rnd.random() < 0.7 else rnd.choice(NAME_POOL)
     other = rnd.choice([b"t.N2", b"t.N1x", b"T.N1", b"t.n1", name + b"x", name[:-1], b":1.6", b"t.N1 "])
     ndirs = rnd.choice((0, 1, 1, 1, 2, 2, 3))
     dirs = []
